@@ -109,6 +109,15 @@ func (w *world) funcPartial(k *kernel, r *funcRef, busy map[ast.Node]bool) bool 
 		return false
 	}
 	if _, _, ok := k.typedSignature(r); !ok {
+		if k.inlinable(r) { // a procedure that is rendered in place: judged by its body
+			if busy[r.fd.Body] {
+				return false
+			}
+			sub := &kernel{w: w, p: r.p, file: r.f, fn: r.fd, imp: imports(r.f), sc: &scope{vars: map[string]*variable{}}}
+			res := w.nodePartial(sub, r.fd.Body, closureLits(r.fd.Body), busy)
+			w.partialMemo[key] = res
+			return res
+		}
 		if k.isKernelFunc(r) {
 			return false // delegation: judged by the translation of the callee
 		}
